@@ -194,6 +194,39 @@ pub fn run_src(src: &str, vars: &[(String, V)]) -> Ran {
     }
 }
 
+/// like `run_src`, but timestamp / duration variables reach the context through the crate's serde wrappers
+/// (`cel_interpreter::Timestamp`, `cel_interpreter::Duration`) instead of as ready-made values
+pub fn run_src_wrapped(src: &str, vars: &[(String, V)]) -> Ran {
+    match compile(src) {
+        Err(p) => Ran::CompilePanic(p),
+        Ok(Err(e)) => Ran::NoCompile(e),
+        Ok(Ok(p)) => {
+            let mut ctx = Context::default();
+            for (n, v) in vars {
+                let r = guard(|| match v {
+                    V::Ts(s, ns, o) => match ts_to_chrono(*s, *ns, *o) {
+                        Some(dt) => ctx.add_variable(n.as_str(), cel_interpreter::Timestamp(dt)).map_err(|e| e.to_string()),
+                        None => Err("not representable".to_string()),
+                    },
+                    other => match to_cel(other) {
+                        Some(c) => {
+                            ctx.add_variable_from_value(n.as_str(), c);
+                            Ok(())
+                        }
+                        None => Err("not representable".to_string()),
+                    },
+                });
+                match r {
+                    Ok(Ok(())) => {}
+                    Ok(Err(e)) => return Ran::Done(R::Err(ErrClass::Other, format!("add_variable: {e}"))),
+                    Err(p) => return Ran::Done(R::Panic(p)),
+                }
+            }
+            Ran::Done(exec(&p, &ctx))
+        }
+    }
+}
+
 impl Ran {
     pub fn show(&self) -> String {
         match self {
